@@ -522,6 +522,218 @@ VOP(pm_http)
 	Out(o.str());
 }
 
+// ---------------------------------------------------------------------------------------------------------------
+// round 5 (f): the attribute dimension of the read path.
+namespace {
+
+// runs one request through HttpHandler::ProcessRequest in a coroutine on the harness io_context (as pm_http does)
+void PmRunHttp(boost::beast::http::verb verb, const std::string& target, const Dictionary::Ptr& body,
+	boost::beast::http::response<boost::beast::http::string_body>& response)
+{
+	namespace http = boost::beast::http;
+	HttpInit();
+	http::request<http::string_body> request;
+	request.method(verb);
+	request.target(target);
+	request.version(11);
+	request.set(http::field::accept, "application/json");
+	request.body() = JsonEncode(body).GetData();
+	ApiUser::Ptr user = l_User;
+	bool done = false;
+	std::string failure;
+	IoEngine::SpawnCoroutine(l_Io, [&](boost::asio::yield_context yc) {
+		try {
+			HttpHandler::ProcessRequest(*l_Stream, user, request, response, yc, *l_Server);
+			done = true;
+		} catch (const std::exception& ex) {
+			failure = ex.what();
+		}
+	});
+	l_Io.restart();
+	l_Io.run();
+	if (!done) throw std::runtime_error("handler did not complete: " + failure);
+}
+
+uint32_t PmFnv(const std::string& s)
+{
+	uint32_t h = 2166136261u;
+	for (unsigned char c : s) { h ^= c; h *= 16777619u; }
+	return h;
+}
+
+// a set of names: the names themselves when there are at most 6, else #<count>:<fnv-1a of the sorted, comma-joined names>
+std::string PmDigest(std::vector<std::string> v)
+{
+	std::sort(v.begin(), v.end());
+	v.erase(std::unique(v.begin(), v.end()), v.end());
+	if (v.empty()) return "-";
+	std::string j;
+	for (auto& x : v) { if (!j.empty()) j += ","; j += x; }
+	if (v.size() <= 6) { std::replace(j.begin(), j.end(), ',', '+'); return j; }
+	char buf[64];
+	snprintf(buf, sizeof(buf), "#%zu:%08x", v.size(), PmFnv(j));
+	return buf;
+}
+
+bool PmFieldHidden(const Field& f)
+{
+	return (f.Attributes & FANoUserView) || ((f.Attributes & FANavigation) && !(f.Attributes & (FAConfig | FAState)));
+}
+
+bool PmIsConfigTypeName(const String& n)
+{
+	Type::Ptr t = Type::GetByName(n);
+	return t && ConfigObject::TypeInstance->IsAssignableFrom(t);
+}
+
+// every place inside a serialised value where a whole config object shows up: a dictionary with "type" naming a config
+// type and "__name" (what Serialize() makes of a ConfigObject)
+void PmFindEmbedded(const Value& v, const std::string& path, std::vector<std::string>& out)
+{
+	if (v.IsObjectType<Dictionary>()) {
+		Dictionary::Ptr d = v;
+		if (d->Contains("type") && d->Contains("__name") && d->Get("type").IsString() && PmIsConfigTypeName(d->Get("type"))) {
+			out.push_back(path + ">" + std::string(String(d->Get("type")).GetData()) + ":" + HexEnc(String(d->Get("__name")).GetData()));
+			return;
+		}
+		ObjectLock olock(d);
+		for (const Dictionary::Pair& kv : d) PmFindEmbedded(kv.second, path, out);
+	} else if (v.IsObjectType<Array>()) {
+		Array::Ptr a = v;
+		ObjectLock olock(a);
+		for (const Value& x : a) PmFindEmbedded(x, path, out);
+	}
+}
+
+int PmCountHidden(const Type::Ptr& type, const Dictionary::Ptr& attrs)
+{
+	int n = 0;
+	ObjectLock olock(attrs);
+	for (const Dictionary::Pair& kv : attrs) {
+		int fid = type->GetFieldId(kv.first);
+		if (fid >= 0 && PmFieldHidden(type->GetFieldInfo(fid))) n++;
+	}
+	return n;
+}
+
+} // namespace
+
+// pm_fields type=<TypeName>: the live reflection data of a type, as the facts generator reads it from the .ti files
+VOP(pm_fields)
+{
+	Type::Ptr type = Type::GetByName(a.str("type"));
+	if (!type) { Out("pm_fields n=-"); return; }
+	// field ids are an artefact of the class compiler (it sorts fields by type): the rows are compared as a SET
+	std::vector<std::string> rowv, navv, objv;
+	int n = type->GetFieldCount();
+	for (int fid = 0; fid < n; fid++) {
+		Field f = type->GetFieldInfo(fid);
+		bool nav = f.Attributes & FANavigation;
+		bool ov = PmIsConfigTypeName(f.TypeName);
+		rowv.push_back(std::string(f.Name) + "/" + (nav && f.NavigationName ? f.NavigationName : "-") + "/" +
+			((f.Attributes & FAConfig) ? "1" : "0") + ((f.Attributes & FAState) ? "1" : "0") + (nav ? "1" : "0") +
+			((f.Attributes & FANoUserView) ? "1" : "0") + (ov ? "1" : "0"));
+		if (nav) navv.push_back(f.Name);
+		if (ov) objv.push_back(f.Name);
+	}
+	std::sort(rowv.begin(), rowv.end());
+	std::string rows;
+	for (auto& r : rowv) rows += r + ";";
+	if (getenv("PM_FIELDS_DUMP")) fprintf(stderr, "%s\n", rows.c_str());
+	char buf[32];
+	snprintf(buf, sizeof(buf), "%08x", PmFnv(rows));
+	Out("pm_fields n=" + std::to_string(n) + " d=" + buf + " nav=" + JoinSorted(navv) + " obj=" + JoinSorted(objv));
+}
+
+// pm_aq ptype=hosts|services [name=<hex>] [attrs=<hex,..>] [aj=<hex,..>] [alljoins=1] [meta=<hex,..>] + query parameters
+// GET /v1/objects/<type> through the real handler; observed: status, result names, the KEYS of every attrs dictionary, the
+// joined objects, every config object embedded anywhere in a serialised value, number of hidden fields among the keys
+VOP(pm_aq)
+{
+	namespace http = boost::beast::http;
+	Dictionary::Ptr body = BuildQuery(a);
+	std::string target = "/v1/objects/" + a.str("ptype", "hosts");
+	if (a.has("name")) target += "/" + UrlEnc(HexDec(a.str("name")));
+	if (a.has("attrs")) body->Set("attrs", HexArray(a.str("attrs")));
+	if (a.has("aj")) body->Set("joins", HexArray(a.str("aj")));
+	if (a.num("alljoins", 0)) body->Set("all_joins", true);
+	if (a.has("meta")) body->Set("meta", HexArray(a.str("meta")));
+	http::response<http::string_body> response;
+	PmRunHttp(http::verb::get, target, body, response);
+	int code = response.result_int();
+	if (code != 200) { Out("pm_aq code=" + std::to_string(code)); return; }
+	Dictionary::Ptr rb;
+	try { rb = JsonDecode(response.body()); } catch (const std::exception&) {}
+	Array::Ptr results = rb ? Array::Ptr(rb->Get("results")) : Array::Ptr();
+	if (!results) { Out("pm_aq code=ok unparsable"); return; }
+	std::string tname = a.str("ptype", "hosts") == "services" ? "Service" : "Host";
+	Type::Ptr ptype = Type::GetByName(tname);
+	static const std::map<std::string, std::string> jt = { { "host", "Host" }, { "check_command", "CheckCommand" },
+		{ "check_period", "TimePeriod" }, { "event_command", "EventCommand" }, { "command_endpoint", "Endpoint" } };
+	std::vector<std::string> objs, joins, embeds;
+	std::string akeys = "-";
+	bool avary = false, first = true;
+	std::map<std::string, std::string> jkeys;
+	bool jvary = false;
+	int hidden = 0;
+	ObjectLock olock(results);
+	for (const Dictionary::Ptr& r : results) {
+		String oname = r->Get("name");
+		objs.push_back(tname + ":" + HexEnc(oname.GetData()));
+		Dictionary::Ptr attrs = r->Get("attrs");
+		std::vector<std::string> ks;
+		if (attrs) {
+			ObjectLock alock(attrs);
+			for (const Dictionary::Pair& kv : attrs) {
+				ks.push_back(kv.first.GetData());
+				PmFindEmbedded(kv.second, kv.first.GetData(), embeds);
+			}
+			hidden += PmCountHidden(ptype, attrs);
+		}
+		std::string d = PmDigest(ks);
+		if (first) akeys = d; else if (d != akeys) avary = true;
+		first = false;
+		Dictionary::Ptr js = r->Get("joins");
+		if (js) {
+			ConfigObject::Ptr pobj = ConfigObject::GetObject(tname, oname);
+			ObjectLock jlock(js);
+			for (const Dictionary::Pair& kv : js) {
+				Dictionary::Ptr jo = kv.second;
+				std::string pfx = kv.first.GetData();
+				// the joined object as the result object's navigation field delivers it (a join restricted to some fields need not contain a name)
+				Object::Ptr jobj;
+				if (pobj) {
+					for (int fid = 0; fid < ptype->GetFieldCount(); fid++) {
+						Field f = ptype->GetFieldInfo(fid);
+						if ((f.Attributes & FANavigation) && f.NavigationName && pfx == f.NavigationName) { jobj = pobj->NavigateField(fid); break; }
+					}
+				}
+				String nm;
+				if (jo && jo->Contains("__name")) nm = jo->Get("__name");
+				else if (jobj) nm = static_pointer_cast<ConfigObject>(jobj)->GetName();
+				auto it = jt.find(pfx);
+				joins.push_back(pfx + ">" + (it == jt.end() ? std::string("?") : it->second) + ":" + HexEnc(nm.GetData()));
+				std::vector<std::string> jks;
+				if (jo) {
+					ObjectLock jolock(jo);
+					for (const Dictionary::Pair& jkv : jo) {
+						jks.push_back(jkv.first.GetData());
+						PmFindEmbedded(jkv.second, pfx + "." + jkv.first.GetData(), embeds);
+					}
+					if (jobj) hidden += PmCountHidden(jobj->GetReflectionType(), jo);
+				}
+				std::string jd = PmDigest(jks);
+				auto jit = jkeys.find(pfx);
+				if (jit == jkeys.end()) jkeys[pfx] = jd; else if (jit->second != jd) jvary = true;
+			}
+		}
+	}
+	std::string jk;
+	for (auto& kv : jkeys) { if (!jk.empty()) jk += "/"; jk += kv.first + "=" + kv.second; }
+	Out("pm_aq code=ok objs=" + JoinSorted(objs) + " akeys=" + akeys + (avary ? "!vary" : "") + " joins=" + JoinSorted(joins) +
+		" jkeys=" + (jk.empty() ? "-" : jk) + (jvary ? "!vary" : "") + " embed=" + JoinSorted(embeds) + " hidden=" + std::to_string(hidden));
+}
+
 namespace {
 struct PmCaseEnd {
 	PmCaseEnd() {
